@@ -143,6 +143,15 @@ Proof.
   change "/" with (sep1 slash). now rewrite join_split.
 Qed.
 
+Lemma rel_of_good name fname : good_comp name -> Forall good_comp (split_on slash fname) -> rel_of name fname = Some (Some fname).
+Proof.
+  intros Hg Hfg. unfold rel_of. rewrite (clean_go_good true (dest_mark :: name :: split_on slash fname) []).
+  2:{ constructor; [exact good_dest|]. constructor; assumption. }
+  cbn [rev app]. rewrite !String.eqb_refl. cbn [andb].
+  destruct (split_on_cons slash fname) as (h & r & Hs). rewrite Hs. rewrite <- Hs.
+  change "/" with (sep1 slash). now rewrite join_split.
+Qed.
+
 Lemma dir_write_all_fresh name l : forall t,
   wf_cname name = true -> Forall (fun f => wf_fname (f_name f) = true) l ->
   fresh_all (map f_name t) (map f_name l) = true ->
@@ -243,6 +252,9 @@ Proof.
     now apply IH.
 Qed.
 
+Lemma length_app_s a b : String.length (a ++ b) = (String.length a + String.length b)%nat.
+Proof. induction a; simpl; auto. Qed.
+
 Lemma nodup_tail {A} (a b : list A) : NoDup (a ++ b) -> NoDup b.
 Proof. induction a as [|x a IH]; simpl; auto. intros H. inversion H; auto. Qed.
 
@@ -335,16 +347,29 @@ Section DirRt.
     destruct (dir_write name t n d); [exact H|discriminate].
   Qed.
 
-  Lemma save_deps_fresh deps : forall t,
-    Forall WT2 deps ->
-    fresh_all (map f_name t) (map f_name (map dep_file deps)) = true ->
-    save_deps md_enc lock_enc json_valid sanitize is_semver rest_valid tgz t deps = Some (t ++ map dep_file deps)%list.
+  Lemma dep_fname_good d : contains_char slash (dep_fname d) = false ->
+    Forall good_comp (split_on slash ("charts/" ++ dep_fname d)).
   Proof.
-    induction deps as [|d deps IH]; intros t Hw Hf; cbn [save_deps map].
+    intros Hs. change ("charts/" ++ dep_fname d) with ("charts" ++ String slash (dep_fname d)).
+    rewrite split_on_sep by reflexivity. rewrite (split_on_nosep slash _ Hs).
+    constructor; [repeat split; discriminate|]. constructor; [|constructor].
+    assert (4 <= String.length (dep_fname d))%nat as Hl.
+    { unfold dep_fname. rewrite !length_app_s. simpl. lia. }
+    repeat split; intros E; rewrite E in Hl; simpl in Hl; lia.
+  Qed.
+
+  Lemma save_deps_fresh name deps : forall t,
+    good_comp name ->
+    Forall WT2 deps -> Forall (fun d => contains_char slash (dep_fname d) = false) deps ->
+    fresh_all (map f_name t) (map f_name (map dep_file deps)) = true ->
+    save_deps md_enc lock_enc json_valid sanitize is_semver rest_valid tgz name t deps = Some (t ++ map dep_file deps)%list.
+  Proof.
+    induction deps as [|d deps IH]; intros t Hn Hw Hsl Hf; cbn [save_deps map].
     - now rewrite app_nil_r.
-    - inversion Hw; subst. cbn [map fresh_all] in Hf. apply andb_true_iff in Hf as [Hf1 Hf2].
+    - inversion Hw; subst. inversion Hsl; subst. cbn [map fresh_all] in Hf. apply andb_true_iff in Hf as [Hf1 Hf2].
       rewrite (L_save_filename d) by assumption. rewrite (L_save d) by assumption.
-      fold (dep_fname d). cbn [f_name dep_file] in Hf1. rewrite (dir_put_fresh t _ _ Hf1).
+      fold (dep_fname d). cbn [f_name dep_file] in Hf1. unfold dir_write.
+      rewrite (rel_of_good name _ Hn (dep_fname_good d ltac:(assumption))). rewrite (dir_put_fresh t _ _ Hf1).
       fold (dep_file d). rewrite IH; auto.
       + now rewrite <- app_assoc.
       + now rewrite map_app.
@@ -353,10 +378,11 @@ Section DirRt.
   (* SaveDir on a well-formed tree whose paths do not collide: exactly [dir_tree] *)
   Lemma save_dir_tree c :
     WT2 c -> contains_char nul (dname c) = false ->
+    Forall (fun d => contains_char slash (dep_fname d) = false) (c_deps c) ->
     fresh_all [] (map f_name (dir_tree c)) = true ->
     SAVEDIR c = Some (dir_tree c).
   Proof.
-    intros Hwf Hnul Hfresh. pose proof (L_cname c Hwf) as Hcn.
+    intros Hwf Hnul Hdsl Hfresh. pose proof (L_cname c Hwf) as Hcn.
     inversion Hwf as [c' Hown Hnd Hok Hdeps]; subst.
     pose proof (L_own_names c Hown) as Hnames.
     destruct Hown as [Hval _ _ _ _ _ _]. cbn [own c_meta] in Hval.
@@ -408,7 +434,7 @@ Section DirRt.
     2:{ specialize (Hmk _ N5). rewrite map_map in Hmk. cbn [mk2 fst snd] in Hmk. now rewrite map_file_eta in Hmk. }
     2:{ unfold t2. rewrite !map_app. exact F5. }
     (* dependencies *)
-    rewrite save_deps_fresh; auto.
+    rewrite (save_deps_fresh (m_name (c_meta c)) (c_deps c) _ (proj1 (wf_cname_props _ Hcn)) Hdeps Hdsl).
     - unfold t2, t0, raw_values. f_equal. cbn [app]. rewrite <- !app_assoc. reflexivity.
     - unfold t2, t0. rewrite !map_app. cbn [app map f_name] in *. rewrite <- !app_assoc. exact F6.
   Qed.
@@ -834,9 +860,14 @@ Section DirRt.
           c_files c' = filter is_filecls walk /\ Permutation (c_files c') (c_files c) /\
           Forall2 same_tree (map norm (ssort fname_leb (c_deps c))) (c_deps c').
   Proof.
-    intros Hwf Hnb Hnul Hfresh Hdv. exists (dir_tree c). split; [now apply save_dir_tree|].
-    intros ign fuel walk Hperm Hok Hfuel.
+    intros Hwf Hnb Hnul Hfresh Hdv.
     inversion Hwf as [c0 Hown Hndn Hdok Hdeps]; subst. inversion Hnb as [c0 Hnbo Hnbd]; subst.
+    assert (Forall (fun d => contains_char slash (dep_fname d) = false) (c_deps c)) as Hds.
+    { apply Forall_forall. intros d Hd. rewrite Forall_forall in Hdv, Hdeps. destruct (Hdv d Hd) as [Hv _].
+      destruct (wf_cname_props _ (L_cname d (Hdeps d Hd))) as (_ & Hs & _).
+      unfold dep_fname, dname in *. rewrite !contains_char_app, Hs, Hv. reflexivity. }
+    exists (dir_tree c). split; [now apply save_dir_tree|].
+    intros ign fuel walk Hperm Hok Hfuel.
     destruct (fresh_nodup _ _ Hfresh) as [Hnames _].
     (* consequences of the pairwise different names *)
     assert (NoDup (map f_name (c_files c)) /\ NoDup (map f_name (map (fun f => mkFile "values.yaml" (f_data f)) (raw_values c)))) as [Hndf Hndv].
@@ -849,10 +880,6 @@ Section DirRt.
     assert (List.length (raw_values c) <= 1)%nat as Hlen.
     { destruct (raw_values c) as [|a [|b r]]; simpl; try lia. cbn in Hndv.
       inversion Hndv as [|? ? Hx _]; subst. exfalso. apply Hx. now left. }
-    assert (Forall (fun d => contains_char slash (dep_fname d) = false) (c_deps c)) as Hds.
-    { apply Forall_forall. intros d Hd. rewrite Forall_forall in Hdv, Hdeps. destruct (Hdv d Hd) as [Hv _].
-      destruct (wf_cname_props _ (L_cname d (Hdeps d Hd))) as (_ & Hs & _).
-      unfold dep_fname, dname in *. rewrite !contains_char_app, Hs, Hv. reflexivity. }
     destruct (tree_facts c Hown Hlen Hndf Hds) as (Hfacts & _ & _ & E1 & E2 & E3 & E4).
     destruct (tree_filters c Hown Hlen Hndf Hds) as (FT & FF & FS).
     assert (NoDup (map f_name walk)) as Hndw by (eapply Permutation_NoDup; [apply Permutation_map, Permutation_sym; exact Hperm|exact Hnames]).
